@@ -16,21 +16,23 @@ WithShape(cds) == [i \in DOMAIN cds |-> cds[i] @@ [shape |-> [h |-> FALSE, ks |-
 AllCDs == WithShape(ExprConstructs) \o WithShape(StmtConstructs) \o FixedClassCDs
 \* this run's share of the constructs (sharding by construct index keeps start-up cheap)
 Mine(cds) == {i \in DOMAIN cds : i % Shards = Shard}
-Singles == SetToSeq(SingleProgs(AllCDs, Mine(AllCDs)))
-PairCDs == AllCDs \o ClassCDs(PairShapes)
-PairsSeq == IF Pairs THEN SetToSeq(PairProgs(PairCDs, WithShape(ExprConstructs) \o WithShape(StmtConstructs), Mine(PairCDs))) ELSE <<>>
+\* thorough: the 2-element class shapes (with and without heritage) are additional single constructs
+SingleCDs == IF Pairs THEN AllCDs \o ClassCDs(PairShapes) ELSE AllCDs
+Singles == SetToSeq(SingleProgs(SingleCDs, Mine(SingleCDs)))
+InnerCDs == SelectSeq(WithShape(ExprConstructs) \o WithShape(StmtConstructs), LAMBDA cd : cd.name \in InnerNames)
+PairsSeq == IF Pairs THEN SetToSeq(PairProgs(AllCDs, InnerCDs, Mine(AllCDs), Stride, Offset)) ELSE <<>>
 NSingles == Len(Singles)
 NPairs == Len(PairsSeq)
 ProgAt(i) == IF i <= NSingles THEN Singles[i] ELSE PairsSeq[i - NSingles]
 
-Selected == {i \in 1..(NSingles + NPairs) : i > NSingles => ((i - NSingles) + Offset) % Stride = 0}
+Selected == 1..(NSingles + NPairs)
 
 \* u = <<index, phase>>.  The work is done in the action (TLC caches LET values while it
 \* evaluates the next-state relation, not while it evaluates an invariant), phase 2 = a check failed.
 PInit == u \in {<<i, 0>> : i \in Selected}
 Checked(i) ==
     LET pr   == ProgAt(i)
-        envs == EnvsOf(pr.x, WithThrow /\ i <= NSingles)
+        envs == EnvsOf(pr.x, WithThrow /\ i <= NSingles, i > NSingles)
         es   == SetToSeq(envs)
         ps   == SetToSeq(ProbesOf(pr.x))
         runs == [e \in envs |-> Run(pr.x, e)]
